@@ -100,14 +100,14 @@ Fixpoint has_tie {A} (eqb : A -> A -> bool) (l : list (bytes * A)) : bool :=
 Definition tie_risk {A} (eqb : A -> A -> bool) (l : list (bytes * A)) : bool :=
   Nat.ltb 12 (length l) && has_tie eqb l.
 
-(* strings.Index / String.prototype.indexOf : the smallest k with sub a prefix of s[k:] *)
+(* strings.Index : the smallest k with sub a prefix of s[k:]  (JavaScript's side: js_index_of below) *)
 Fixpoint index_from (sub s : bytes) (k : nat) : option nat :=
   if prefixb sub s then Some k
   else match s with [] => None | _ :: r => index_from sub r (S k) end.
 Definition str_index (sub s : bytes) : Z :=
   match index_from sub s 0 with Some k => Z.of_nat k | None => (-1)%Z end.
 
-(* strings.Split / String.prototype.split with a string separator *)
+(* strings.Split : explode for the empty separator, else cut at each next Index  (JavaScript's side: js_split below) *)
 Fixpoint split_go (fuel : nat) (sep s cur : bytes) : list bytes :=
   match fuel with
   | O => [rev cur ++ s]
@@ -487,8 +487,68 @@ Definition js_arr_method (h : list (list jval)) (l : nat) (items : list jval) (f
   | _, _ => None
   end.
 
-(* String.prototype on ASCII strings *)
+(* String.prototype on ASCII strings.  split, indexOf and the case mappings are written here from
+   ECMA-262, separately from the helpers the Go side uses above (str_split = strings.Split,
+   str_index = strings.Index, up_char/low_char = strings.ToUpper/ToLower on ASCII); that the two
+   readings agree on every string is proved (Proofs: js_split_eq, js_index_eq, js_up_eq, js_low_eq),
+   not assumed. *)
 Definition js_substring (s : bytes) (from to : nat) : bytes := firstn (to - from) (skipn from s).
+
+(* SplitMatch(S, q, R) on rest = S[q..]: R stands at q -> the text after it (S[e..]); otherwise failure *)
+Fixpoint split_match (r rest : bytes) : option bytes :=
+  match r, rest with
+  | [], _ => Some rest
+  | a :: r', b :: rest' => if Ascii.eqb a b then split_match r' rest' else None
+  | _ :: _, [] => None
+  end.
+Definition is_nil {A} (l : list A) : bool := match l with [] => true | _ => false end.
+(* the loop of String.prototype.split (separator a string, no limit): p <= q walk over S,
+   cur = S[p..q) reversed, rest = S[q..].
+     q = size            -> the last piece S[p..size)
+     e = failure         -> q := q + 1
+     e = p               -> q := q + 1        (only the empty separator matches without advancing)
+     otherwise           -> piece S[p..q); p := e; q := p
+   Blanks, tabs and line feeds are ordinary characters: nothing is trimmed, no piece is dropped. *)
+Fixpoint js_split_loop (fuel : nat) (r cur rest : bytes) : list bytes :=
+  match fuel with
+  | O => []
+  | S f =>
+    match rest with
+    | [] => [rev cur]
+    | c :: rest' =>
+      match split_match r rest with
+      | None => js_split_loop f r (c :: cur) rest'
+      | Some after =>
+        if is_nil r && is_nil cur then js_split_loop f r (c :: cur) rest'
+        else rev cur :: js_split_loop f r [] after
+      end
+    end
+  end.
+(* size = 0: [] if the separator matches the empty string (it is empty), else [S] *)
+Definition js_split (r s : bytes) : list bytes :=
+  match s with
+  | [] => if is_nil r then [] else [[]]
+  | _ :: _ => js_split_loop (S (2 * length s)) r [] s
+  end.
+
+(* String.prototype.indexOf(searchString): the smallest k with k + |R| <= size and S[k..k+|R|) = R; -1 if none *)
+Definition js_index_of (r s : bytes) : Z :=
+  match find (fun k => beqb (firstn (length r) (skipn k s)) r) (seq 0 (S (length s))) with
+  | Some k => Z.of_nat k
+  | None => (-1)%Z
+  end.
+
+(* toUpperCase / toLowerCase on ASCII: the 26 letter pairs of the Unicode case mappings, every other
+   character (digits, blanks, punctuation, @ [ ` { next to the letter ranges) maps to itself *)
+Definition letter_pairs : list (ascii * ascii) :=
+  combine (B "abcdefghijklmnopqrstuvwxyz") (B "ABCDEFGHIJKLMNOPQRSTUVWXYZ").
+Fixpoint assoc_char (c : ascii) (t : list (ascii * ascii)) : ascii :=
+  match t with
+  | [] => c
+  | (a, b) :: r => if Ascii.eqb c a then b else assoc_char c r
+  end.
+Definition js_up (c : ascii) : ascii := assoc_char c letter_pairs.
+Definition js_low (c : ascii) : ascii := assoc_char c (map (fun p => (snd p, fst p)) letter_pairs).
 Definition js_str_method (h : list (list jval)) (s : bytes) (f : meth) (args : list jval)
   : option (list (list jval) * jval * list flag) :=
   let len := length s in
@@ -498,15 +558,15 @@ Definition js_str_method (h : list (list jval)) (s : bytes) (f : meth) (args : l
   | MCharAt, [JNum n] =>
     if Z.ltb n 0 then None
     else Some (h, JStr (match nth_error s (Z.to_nat n) with Some c => [c] | None => [] end), [])
-  | MIndexOf, [JStr d] => Some (h, JNum (str_index d s), [])
+  | MIndexOf, [JStr d] => Some (h, JNum (js_index_of d s), [])
   | MSlice, [JNum n] =>
     (* from = n < 0 ? max(len + n, 0) : min(n, len); the claim covers n >= -len *)
     if Z.ltb n (- Z.of_nat len) then None
     else let from := if Z.ltb n 0 then Z.to_nat (Z.of_nat len + n) else Nat.min (Z.to_nat n) len in
          Some (h, JStr (js_substring s from len), [])
-  | MSplit, [JStr d] => Some (h ++ [map JStr (str_split d s)], JArr (length h), [])
-  | MUpper, [] => Some (h, JStr (map up_char s), [])
-  | MLower, [] => Some (h, JStr (map low_char s), [])
+  | MSplit, [JStr d] => Some (h ++ [map JStr (js_split d s)], JArr (length h), [])
+  | MUpper, [] => Some (h, JStr (map js_up s), [])
+  | MLower, [] => Some (h, JStr (map js_low s), [])
   | _, _ => None
   end.
 
